@@ -647,6 +647,11 @@ pub struct C13Plan {
     pub peer_yields: usize,
     /// use the BufReader-wrapping constructor with this capacity instead of handing the script in directly
     pub bufreader: Option<usize>,
+    /// once everything has gone quiet (and the late acknowledgements, if any, are out): 0 nothing,
+    /// 1 the peer resets the flow, 2 the connection is lost (the transport reports an error).
+    /// A bridge that sits on data it could not send for lack of credit then has a failed write.
+    #[serde(default)]
+    pub late_end: u8,
 }
 fn local_byte(i: u64) -> u8 {
     pbyte(13, 0, i)
@@ -675,8 +680,11 @@ async fn run_c13_async(plan: C13Plan, sched: Sched, record: bool) -> Outcome {
     let peer_sent: Rc<RefCell<Vec<u8>>> = Default::default();
     let peer_end_at: Rc<RefCell<Option<u64>>> = Default::default();
     let batch_acked: Rc<RefCell<u32>> = Default::default();
+    // (seq, bytes the local side had produced, bytes that had reached the peer, Push frames from the bridge, bridge done) at the late end
+    let late_at: Rc<RefCell<Option<(u64, usize, usize, u64, bool)>>> = Default::default();
     {
         let (raw, peer, plan2, ps, pe, seq, ba) = (s.raw.clone(), s.peer.clone(), plan.clone(), peer_sent.clone(), peer_end_at.clone(), s.seq.clone(), batch_acked.clone());
+        let (la, log2, res2, link2) = (late_at.clone(), log.clone(), result.clone(), s.link.clone());
         s.sim.spawn("peer-tx", CLS_OTHER, async move {
             raw.borrow_mut().send(RFrame::Connect { id: ID_BRG, rwnd: plan2.peer_rwnd.max(1), port: 1, host: b"brg".to_vec() });
             if !wait_until(&peer, |p| p.acked.contains_key(&ID_BRG)).await {
@@ -727,6 +735,19 @@ async fn run_c13_async(plan: C13Plan, sched: Sched, record: bool) -> Outcome {
                     }
                 }
             }
+            if plan2.late_end % 3 != 0 {
+                tokio::time::sleep(Duration::from_secs(2000)).await;
+                let (got, pushes) = {
+                    let p = peer.borrow();
+                    (p.rx_bytes.get(&ID_BRG).map(|v| v.len()).unwrap_or(0), p.got.iter().filter(|(_, w)| matches!(w, Wire::Frame(RFrame::Push { id, .. }) if *id == ID_BRG)).count() as u64)
+                };
+                *la.borrow_mut() = Some((seq.tick(), log2.borrow().produced.len(), got, pushes, res2.borrow().is_some()));
+                if plan2.late_end % 3 == 1 {
+                    raw.borrow_mut().send(RFrame::Reset { id: ID_BRG });
+                } else {
+                    link2.lock().unwrap().cut(1, false, crate::link::SrcMode::Err, false);
+                }
+            }
         });
     }
     let end = s.sim.run(3_000_000, crate::duo::HORIZON).await;
@@ -743,7 +764,8 @@ async fn run_c13_async(plan: C13Plan, sched: Sched, record: bool) -> Outcome {
     let pushes_from_a = p.got.iter().filter(|(_, w)| matches!(w, Wire::Frame(RFrame::Push { id, .. }) if *id == ID_BRG)).count() as u64;
     let finishes = p.got.iter().filter(|(_, w)| matches!(w, Wire::Frame(RFrame::Finish { id }) if *id == ID_BRG)).count();
     let a_reset = p.resets.get(&ID_BRG).copied().unwrap_or(0);
-    let peer_reset = plan.peer_end == 1 && peer_end_at.borrow().is_some();
+    let late = *late_at.borrow();
+    let peer_reset = (plan.peer_end == 1 && peer_end_at.borrow().is_some()) || (plan.late_end % 3 == 1 && late.is_some());
     let peer_finished = plan.peer_end == 0 && peer_end_at.borrow().is_some();
     let done = res.is_some();
     let desc = format!(
@@ -788,7 +810,7 @@ async fn run_c13_async(plan: C13Plan, sched: Sched, record: bool) -> Outcome {
         if *r != l.written.len() || *w != got_from_a.len() || *w != l.produced.len() {
             o.violate("C13:byte-counts", format!("the bridge completed with ({r}, {w}) but {} bytes were written locally and {} bytes of {} produced reached the peer; {desc}", l.written.len(), got_from_a.len(), l.produced.len()));
         }
-        if finishes == 0 && !peer_reset {
+        if finishes == 0 && !peer_reset && !(plan.late_end % 3 == 2 && late.is_some()) {
             o.violate("C13:no-finish", format!("the bridge completed Ok without sending Finish; {desc}"));
         }
         if !l.shutdown_done {
@@ -800,7 +822,8 @@ async fn run_c13_async(plan: C13Plan, sched: Sched, record: bool) -> Outcome {
         if !l.eof_returned {
             o.violate("C13:completed-without-local-eof", format!("the bridge completed Ok although the local side never reached end-of-stream; {desc}"));
         }
-        if !(peer_finished || peer_reset) {
+        let conn_lost = plan.late_end % 3 == 2 && late.is_some();
+        if !(peer_finished || peer_reset || conn_lost) {
             o.violate("C13:completed-without-peer-end", format!("the bridge completed Ok although the peer never ended its direction; {desc}"));
         }
         o.probe("bridge-ok", 1);
@@ -822,6 +845,23 @@ async fn run_c13_async(plan: C13Plan, sched: Sched, record: bool) -> Outcome {
     }
     // ---- an operation failed: the bridge completes with that error promptly (no later than quiescence,
     //      without unrelated traffic having to wake it)
+    // ---- the flow was closed from outside (Reset, connection lost) while the bridge held data it
+    //      could not send for lack of credit: that write has failed, the bridge completes
+    if let Some((q, produced, got, pushes, was_done)) = late {
+        o.probe(if plan.late_end % 3 == 1 { "fault:late-peer-reset" } else { "fault:late-connection-loss" }, 1);
+        let granted_then = plan.peer_rwnd.max(1) as u64
+            + match plan.ack_mode {
+                0 => pushes,
+                1 => 0,
+                _ => *batch_acked.borrow() as u64,
+            };
+        if !was_done && produced > got && pushes >= granted_then {
+            o.probe("flow-closed-under-starved-writer", 1);
+            if !done {
+                o.violate("C13:starved-write-not-failed", format!("the bridge held {} bytes read from the local side that it could not send for lack of credit when {} (seq {q}); the pending write has failed but the bridge is still pending at quiescence; {desc}", produced - got, if plan.late_end % 3 == 1 { "the peer reset the flow" } else { "the connection was lost" }));
+            }
+        }
+    }
     if !done {
         if l.read_err {
             o.violate("C13:read-error-not-propagated", format!("a read on the local side returned an error but the bridge is still pending at quiescence; {desc}"));
